@@ -247,8 +247,100 @@ def dynslot_rule(chk, db):
         chk.obligation("DYNSLOT", construct, bad is None)
         if bad:
             chk.violation("DYNSLOT", construct, "dynamic-slot", "%s: %s" % (astx.loc(f, bad[0]), bad[1]), {"where": astx.loc(f)})
+    # (c) the slot array of *another* extents object is never read directly: its slots are numbered by that type's own dynamic
+    # positions, which differ from this type's whenever the static/dynamic patterns differ (extent(i) is the common currency)
+    fields = set(fd["n"] for fd in (db.record(EXTENTS) or {}).get("fields", []))
+    for f in fs:
+        foreign = [x for x in astx.all_exprs(f, into_lambdas=True) if x.get("k") == "mem" and x.get("n") in fields
+                   and x.get("b") is not None and not astx.is_this(astx.strip_casts(x.get("b")))]
+        if not foreign and not any(p0 for p0 in f["params"] if "extents<" in p0["ty"]):
+            continue
+        construct = astx.sig(f) + " [foreign slots]"
+        chk.instance("DYNSLOT")
+        chk.obligation("DYNSLOT", construct, not foreign)
+        for x in foreign[:1]:
+            chk.violation("DYNSLOT", construct, "foreign-slot-array", "%s: `%s` reads the slot array of another extents object; its slots "
+                          "follow that type's dynamic positions, not this one's (use extent(i))" % (astx.loc(f, x), astx.show(x, 50)),
+                          {"where": astx.loc(f)})
     if n < 3:
         chk.analysis_broken("DYNSLOT: only %d members of etl::extents touch the dynamic slots (floor 3)" % n)
+
+
+def mapped_rule(chk, db):
+    """MAPPED: every element access of mdspan / mdarray takes its offset from the layout mapping. The offset handed to the
+    accessor (`_acc.access(handle, off)`, `_acc.offset(handle, off)`) or used to subscript the owned container is, after
+    resolving const locals and casts, a call of the mapping member on every `if constexpr` alternative; an access that
+    bypasses the mapping addresses the wrong element for every layout that is not the identity."""
+    total = 0
+    for rq in ("etl::mdspan", "etl::mdarray"):
+        rec = db.record(rq)
+        if not rec:
+            chk.analysis_broken("MAPPED: %s no longer exists" % rq)
+            continue
+        maps = set(fd["n"] for fd in rec["fields"] if "mapping" in fd["ty"])
+        accs = set(fd["n"] for fd in rec["fields"] if "accessor" in fd["ty"])
+        ctrs = set(fd["n"] for fd in rec["fields"] if "container" in fd["ty"])
+        if not maps or not (accs or ctrs):
+            chk.analysis_broken("MAPPED: the mapping / accessor / container members of %s are no longer recognisable" % rq)
+            continue
+        n = 0
+        for f in db.funcs:
+            if f.get("record") != rq or f.get("body") is None:
+                continue
+            inits = {}
+            for st in astx.walk_stmts(f.get("body")):
+                if st.get("k") == "decl":
+                    for v in st["vars"]:
+                        if "other" not in v and v.get("init") is not None:
+                            inits[v["n"]] = v["init"]
+
+            def from_mapping(e, depth=0):
+                e = astx.strip_casts(e)
+                while e is not None and e.get("k") in ("paren",) or (e is not None and e.get("k") in ("construct", "initlist") and len(e.get("a", [])) == 1):
+                    e = astx.strip_casts(e.get("e") if e.get("k") == "paren" else e["a"][0])
+                if e is None or depth > 4:
+                    return False
+                if e.get("k") == "ref" and e.get("n") in inits:
+                    return from_mapping(inits[e["n"]], depth + 1)
+                if e.get("k") == "cond":
+                    return from_mapping(e["t"], depth + 1) and from_mapping(e["f"], depth + 1)
+                if e.get("k") == "call":
+                    fn = astx.strip_casts(e["f"])
+                    if fn is not None and fn.get("k") in ("mem", "ref") and fn.get("n") in maps:
+                        return True
+                    nm, q, recv, kind = astx.callee(e)
+                    r = astx.strip_casts(recv) if recv is not None else None
+                    if kind == "member" and nm == "operator()" and r is not None and r.get("n") in maps:
+                        return True
+                    if nm == "mapping" and not e["a"]:
+                        return False
+                    # this->mapping()(i...)
+                    if fn is not None and fn.get("k") == "call" and astx.callee(fn)[0] == "mapping":
+                        return True
+                return False
+            sites = []
+            for x in astx.all_exprs(f, into_lambdas=True):
+                if x.get("k") == "call" and astx.callee(x)[3] == "member" and astx.callee(x)[0] in ("access", "offset") and len(x["a"]) == 2:
+                    r = astx.strip_casts(astx.callee(x)[2])
+                    if r is not None and r.get("n") in accs:
+                        sites.append((x, x["a"][1]))
+                if x.get("k") == "idx":
+                    b = astx.strip_casts(x["b"])
+                    if b is not None and b.get("k") in ("mem", "ref") and b.get("n") in ctrs:
+                        sites.append((x, x["i"]))
+            for x, off in sites:
+                n += 1
+                label = "%s :: `%s`" % (astx.sig(f), astx.show(x, 60))
+                chk.instance("MAPPED")
+                ok = from_mapping(off)
+                chk.obligation("MAPPED", label, ok)
+                if not ok:
+                    chk.violation("MAPPED", label, "bypasses-mapping", "%s: the offset `%s` of this element access is not produced by the layout "
+                                  "mapping `%s`" % (astx.loc(f, x), astx.show(off, 60), sorted(maps)[0]), {"where": astx.loc(f)})
+        if n < 1:
+            chk.analysis_broken("MAPPED: no element access found in %s (the rule lost its subject)" % rq)
+        total += n
+    return total
 
 
 def transpose_rule(chk, db):
@@ -496,6 +588,9 @@ def run(chk, tier):
     db = D.load("checks")
     from ..rules import params as _PR
     _PR.check(chk, db, ['_span/', '_mdspan/', '_array/', '_linalg/layout'], floor=40)
+    from ..rules import sibs as _SB
+    _SB.check(chk, db, ['_span/', '_mdspan/', '_mdarray/', '_array/', '_linalg/layout'])      # SIB: cv/ref-qualified overloads of one member agree
+    _SB.positive_control(chk)
     plain = D.load("plain")
     with open(c05.SPEC) as fh:
         table = json.load(fh)["entries"]
@@ -503,6 +598,7 @@ def run(chk, tier):
     mirror_rule(chk, db)
     guard_rule(chk, db)
     dynslot_rule(chk, db)
+    mapped_rule(chk, db)
     transpose_rule(chk, db)
     transpose_extents_rule(chk, db)
     rel.check(chk, db, ["_array/array.hpp", "_mdspan/layout_left.hpp", "_mdspan/layout_right.hpp", "_linalg/layout_transpose.hpp"])
